@@ -119,14 +119,16 @@ def parse_kv(line):
 # ---------------------------------------------------------------------- known findings
 
 class Findings:
-    def __init__(self, prop):
+    def __init__(self, prop, also=()):
         self.prop = prop
+        props = [prop] + list(also)
         p = os.path.join(VERIF, 'known_findings.json')
         self.entries = []
         if os.path.exists(p):
             with open(p) as f:
                 data = json.load(f)
-            self.entries = [e for e in data.get('findings', []) if (prop == e.get('property') or prop in (e.get('property') if isinstance(e.get('property'), list) else [])) and e.get('status') == 'known']
+            self.entries = [e for e in data.get('findings', []) if e.get('status') == 'known' and
+                            set(props) & set(e.get('property') if isinstance(e.get('property'), list) else [e.get('property')])]
         self.hit = {}
 
     def match(self, sig):
@@ -153,6 +155,8 @@ class Findings:
             return str(sig.get('syntax', '')).startswith(v)
         if k == 'detail_contains':
             return v in str(sig.get('detail', ''))
+        if k.endswith('_contains'):
+            return v in str(sig.get(k[:-9], ''))
         if isinstance(v, list):
             return sig.get(k) in v or str(sig.get(k)) in [str(x) for x in v]
         return str(sig.get(k)) == str(v)
@@ -207,11 +211,11 @@ class Findings:
 # ---------------------------------------------------------------------- violations, evidence
 
 class Check:
-    def __init__(self, prop, level, tier):
+    def __init__(self, prop, level, tier, also_findings_of=()):
         self.prop, self.level, self.tier = prop, level, tier
         self.t0 = time.time()
         self.violations = []
-        self.findings = Findings(prop)
+        self.findings = Findings(prop, also_findings_of)
         self.cov = {}
         self.seed = int(os.environ.get('VERIF_SEED', '0') or 0)
         self.assumptions = []
